@@ -195,6 +195,7 @@ func (p *c05Pkg) storeCalls(fn string) []string {
 		return []string{fn + ":MISSING"}
 	}
 	var res []string
+	inGo := 0
 	var walk func(n ast.Node, deferred bool)
 	walk = func(n ast.Node, deferred bool) {
 		ast.Inspect(n, func(m ast.Node) bool {
@@ -205,6 +206,18 @@ func (p *c05Pkg) storeCalls(fn string) []string {
 				}
 				walk(x.Call, true)
 				return false
+			case *ast.GoStmt:
+				// a store call made from a goroutine the function starts: not part of the request any more
+				inGo++
+				ast.Inspect(x.Call, func(k ast.Node) bool {
+					if k != nil && k != ast.Node(x.Call) {
+						walk(k, deferred)
+						return false
+					}
+					return true
+				})
+				inGo--
+				return false
 			case *ast.CallExpr:
 				if sel, ok := x.Fun.(*ast.SelectorExpr); ok {
 					if inner, ok := sel.X.(*ast.CallExpr); ok {
@@ -212,6 +225,9 @@ func (p *c05Pkg) storeCalls(fn string) []string {
 							s := isel.Sel.Name + "." + sel.Sel.Name
 							if deferred {
 								s += ":defer"
+							}
+							if inGo > 0 {
+								s += ":go"
 							}
 							res = append(res, s)
 						}
@@ -449,6 +465,8 @@ func extractC05() *lean {
 
 	// ---- auth/api/iam: stores (ttl, prefix) and the store calls of each consumer
 	iam := c05Load("auth/api/iam")
+	vciEarly := c05Load("vcr/issuer")
+	storEarly := c05Load("storage")
 	for _, st := range []string{"oauthCodeStore", "authzRequestObjectStore", "oauthNonceStore", "userRedirectStore", "s2sNonceStore", "useNonceOnceStore"} {
 		ttl, prefix, ok := iam.storeDef(st)
 		if !ok {
@@ -536,6 +554,56 @@ func extractC05() *lean {
 		})
 	}
 	l.def("s2sNonceLoopExits", "List String", leanStrList(early), early)
+
+	// goroutines started by, and package-level synchronisation / coalescing state of, the packages that handle one-time secrets:
+	// a request's store calls are made by the request itself, and no request waits for or shares the result of another one
+	var gos, globals []string
+	for _, pk := range []struct {
+		name string
+		pkg  *c05Pkg
+	}{{"iam", iam}, {"issuer", vciEarly}, {"storage", storEarly}} {
+		for fname, fd := range pk.pkg.funcs {
+			if fd.Body == nil {
+				continue
+			}
+			ast.Inspect(fd.Body, func(n ast.Node) bool {
+				if _, ok := n.(*ast.GoStmt); ok {
+					gos = append(gos, pk.name+"."+fname)
+				}
+				return true
+			})
+		}
+		for _, f := range pk.pkg.files {
+			for _, d := range f.Decls {
+				gd, ok := d.(*ast.GenDecl)
+				if !ok || gd.Tok != token.VAR {
+					continue
+				}
+				for _, sp := range gd.Specs {
+					vs := sp.(*ast.ValueSpec)
+					desc := ""
+					if vs.Type != nil {
+						desc = exprString(vs.Type)
+					}
+					for _, v := range vs.Values {
+						desc += " " + c05Expr(v)
+					}
+					for _, frag := range []string{"sync.", "singleflight.", "atomic.", "lru.", "Cache", "chan "} {
+						if strings.Contains(desc, frag) {
+							for _, nm := range vs.Names {
+								globals = append(globals, pk.name+"."+nm.Name+":"+strings.TrimSpace(desc))
+							}
+							break
+						}
+					}
+				}
+			}
+		}
+	}
+	sort.Strings(gos)
+	sort.Strings(globals)
+	l.def("goStatements", "List String", leanStrList(gos), gos)
+	l.def("syncGlobals", "List String", leanStrList(globals), globals)
 
 	// every function of the package that touches one of the one-time stores (a new consumer needs a model)
 	users := map[string]bool{}
